@@ -22,6 +22,8 @@ A check module (checks/cNN.py) provides
 
 import argparse
 import concurrent.futures as cf
+from concurrent.futures.process import BrokenProcessPool
+import subprocess
 import hashlib
 import importlib
 import json
@@ -122,12 +124,26 @@ class _Stats:
         }
 
 
+def _limit_memory():
+    """a case that makes the library ask for an absurd amount of memory must end in MemoryError (judged by the
+    oracle), not in the kernel's OOM killer; only the soft limit is lowered so that sanitizer subprocesses can lift it"""
+    import resource
+
+    soft, hard = resource.getrlimit(resource.RLIMIT_AS)
+    want = int(os.environ.get("VERIF_MEM_LIMIT_GB", "8")) << 30
+    if soft == resource.RLIM_INFINITY or soft > want:
+        resource.setrlimit(resource.RLIMIT_AS, (want, hard))
+
+
 def _worker(args):
     cid, tier, seed, widx, rnd, excluded, examples = args
     scratch = tempfile.mkdtemp(prefix=f"vf_{cid}_{widx}_")
     os.chdir(scratch)
+    _limit_memory()
     try:
-        return _worker_inner(cid, tier, seed, widx, rnd, excluded, examples)
+        res = _worker_inner(cid, tier, seed, widx, rnd, excluded, examples)
+        _crash_note(widx, None)
+        return res
     except HarnessError as e:
         return {"harness_error": f"{e}\n{traceback.format_exc()}"}
     except Exception as e:  # anything escaping here is a harness bug
@@ -135,6 +151,23 @@ def _worker(args):
     finally:
         os.chdir("/")
         shutil.rmtree(scratch, ignore_errors=True)
+
+
+def _crash_note(widx, case):
+    """the case a worker is about to run, kept on disk so that a worker killed by a signal (wild pointer in generated C,
+    stack overflow) still yields a replayable case"""
+    d = os.environ.get("VERIF_CRASHDIR")
+    if not d:
+        return
+    path = os.path.join(d, f"w{widx}.json")
+    if case is None:
+        try:
+            os.remove(path)
+        except OSError:
+            pass
+    else:
+        with open(path, "w") as f:
+            f.write(canon(case))
 
 
 def _worker_inner(cid, tier, seed, widx, rnd, excluded, examples):
@@ -171,6 +204,7 @@ def _worker_inner(cid, tier, seed, widx, rnd, excluded, examples):
             last_fail["shrinks"] = last_fail.get("shrinks", 0) + 1
             if last_fail["shrinks"] > shrink_budget:
                 return
+        _crash_note(widx, case)
         out, known, jcase = judge(mod, case, open_findings)
         if out.ok or known:
             stats.add(case, out, known)
@@ -214,6 +248,7 @@ def _exh_worker(args):
     cid, job = args
     scratch = tempfile.mkdtemp(prefix=f"vf_{cid}_x_")
     os.chdir(scratch)
+    _limit_memory()
     try:
         mod = importlib.import_module(f"checks.{cid.lower()}")
         return mod.run_exhaustive_job(job)
@@ -227,6 +262,25 @@ def _exh_worker(args):
 # --------------------------------------------------------------------------
 # main
 # --------------------------------------------------------------------------
+
+
+def _triage_crash(cid, crashdir):
+    """-> [(signature, replay path)] for cases that kill a fresh interpreter when replayed"""
+    out = []
+    for fn in sorted(os.listdir(crashdir)):
+        if not fn.endswith(".json"):
+            continue
+        with open(os.path.join(crashdir, fn)) as f:
+            case = json.load(f)
+        rp = write_replay(cid, case, {"sig": "interpreter_crashed", "clause": "interpreter_crashed", "detail": "the case kills the Python process (signal) when run"})
+        r = subprocess.run([sys.executable, "-u", "-m", "vlib.main", cid, "--replay", rp], cwd=HERE, stdout=subprocess.PIPE, stderr=subprocess.STDOUT, text=True, timeout=1800)
+        if r.returncode < 0 or r.returncode > 2:
+            out.append((f"interpreter_crashed|rc={r.returncode}", rp))
+        elif r.returncode == 1:
+            out.append(("crash_candidate_fails_on_replay|", rp))
+        else:
+            os.remove(rp)
+    return out
 
 
 def write_replay(cid, case, meta):
@@ -352,46 +406,62 @@ def main(argv=None):
 
     ctx = mp.get_context("fork")
     exh_info = None
-    with cf.ProcessPoolExecutor(max_workers=jobs, mp_context=ctx) as pool:
-        # ---- 2. exhaustive small-scope sweep
-        if hasattr(mod, "exhaustive_jobs") and not a.no_exhaustive:
-            ejobs = mod.exhaustive_jobs(tier)
-            exh_info = {"jobs": len(ejobs), "cases": 0, "nontrivial": 0, "scope": getattr(mod, "EXHAUSTIVE_SCOPE", {}).get(tier, "")}
-            for res in pool.map(_exh_worker, [(cid, j) for j in ejobs], chunksize=1):
-                if "harness_error" in res:
-                    harness_errors.append(res["harness_error"])
-                    continue
-                exh_info["cases"] += res["cases"]
-                exh_info["nontrivial"] += res["nontrivial"]
-                for k, v in res.get("labels", {}).items():
-                    tot["labels"]["exh:" + k] = tot["labels"].get("exh:" + k, 0) + v
-                for k, v in res.get("known", {}).items():
-                    tot["known"][k] = tot["known"].get(k, 0) + v
-                for fl in res.get("failures", []):
-                    if fl["sig"] not in seen_sigs:
+    crashdir = tempfile.mkdtemp(prefix=f"vfcrash_{cid}_")
+    os.environ["VERIF_CRASHDIR"] = crashdir
+    try:
+        with cf.ProcessPoolExecutor(max_workers=jobs, mp_context=ctx) as pool:
+            # ---- 2. exhaustive small-scope sweep
+            if hasattr(mod, "exhaustive_jobs") and not a.no_exhaustive:
+                ejobs = mod.exhaustive_jobs(tier)
+                exh_info = {"jobs": len(ejobs), "cases": 0, "nontrivial": 0, "scope": getattr(mod, "EXHAUSTIVE_SCOPE", {}).get(tier, "")}
+                for res in pool.map(_exh_worker, [(cid, j) for j in ejobs], chunksize=1):
+                    if "harness_error" in res:
+                        harness_errors.append(res["harness_error"])
+                        continue
+                    exh_info["cases"] += res["cases"]
+                    exh_info["nontrivial"] += res["nontrivial"]
+                    for k, v in res.get("labels", {}).items():
+                        tot["labels"]["exh:" + k] = tot["labels"].get("exh:" + k, 0) + v
+                    for k, v in res.get("known", {}).items():
+                        tot["known"][k] = tot["known"].get(k, 0) + v
+                    for fl in res.get("failures", []):
+                        if fl["sig"] not in seen_sigs:
+                            seen_sigs.add(fl["sig"])
+                            rp = write_replay(cid, fl["case"], {k: fl[k] for k in ("sig", "clause", "detail")})
+                            violations.append((fl["sig"], rp))
+                    if res.get("sample") is not None and len(tot["samples"]) < 2:
+                        tot["samples"].append(trim(res["sample"]))
+            # ---- 3. generated search, continued past each new root cause
+            for rnd in range(MAX_ROUNDS):
+                ex = examples if rnd == 0 else max(20, examples // 2)
+                args = [(cid, tier, seed, w, rnd, sorted(seen_sigs), ex) for w in range(jobs)]
+                new = 0
+                for res in pool.map(_worker, args, chunksize=1):
+                    if "harness_error" in res:
+                        harness_errors.append(res["harness_error"])
+                        continue
+                    absorb(res)
+                    fl = res["failure"]
+                    if fl and fl["sig"] not in seen_sigs:
                         seen_sigs.add(fl["sig"])
                         rp = write_replay(cid, fl["case"], {k: fl[k] for k in ("sig", "clause", "detail")})
                         violations.append((fl["sig"], rp))
-                if res.get("sample") is not None and len(tot["samples"]) < 2:
-                    tot["samples"].append(trim(res["sample"]))
-        # ---- 3. generated search, continued past each new root cause
-        for rnd in range(MAX_ROUNDS):
-            ex = examples if rnd == 0 else max(20, examples // 2)
-            args = [(cid, tier, seed, w, rnd, sorted(seen_sigs), ex) for w in range(jobs)]
-            new = 0
-            for res in pool.map(_worker, args, chunksize=1):
-                if "harness_error" in res:
-                    harness_errors.append(res["harness_error"])
-                    continue
-                absorb(res)
-                fl = res["failure"]
-                if fl and fl["sig"] not in seen_sigs:
-                    seen_sigs.add(fl["sig"])
-                    rp = write_replay(cid, fl["case"], {k: fl[k] for k in ("sig", "clause", "detail")})
-                    violations.append((fl["sig"], rp))
-                    new += 1
-            if new == 0 or harness_errors:
-                break
+                        new += 1
+                if new == 0 or harness_errors:
+                    break
+
+
+    except BrokenProcessPool:
+        # a worker was killed: find the case(s) being run, confirm each in a fresh process
+        crashed = _triage_crash(cid, crashdir)
+        for sig, rp in crashed:
+            if sig not in seen_sigs:
+                seen_sigs.add(sig)
+                violations.append((sig, rp))
+        if not crashed:
+            harness_errors.append("a worker process died and no crashing case could be confirmed")
+    finally:
+        shutil.rmtree(crashdir, ignore_errors=True)
 
     wall = time.time() - t0
     if harness_errors:
